@@ -10,7 +10,7 @@ CHECKS = {
                     'length residues, leading zeros) are reachable by construction.'),
         technique='property-based differential testing (rapid) + exhaustive enumeration of length residues against a reference AES-IGE',
         quick=dict(shards=4, checks=6000),
-        thorough=dict(shards=16, checks=240000, budget_s=3000),
+        thorough=dict(shards=16, checks=480000, budget_s=3000),
         rule=('rapid-generated + enumerated cases of three kinds: raw (32-byte key, 32-byte IV, input of 0..N bytes) compared '
               'block-by-block with a textbook AES-IGE written on crypto/aes, plus refusal of length 0 / non-multiples of 16 and '
               'caller-buffer immutability; msg (256-byte auth key, message) for the message-level wrapper in both directions '
@@ -42,7 +42,7 @@ CHECKS = {
     'C04': dict(
         pkg='./c04', test='TestC04', level='fault_enumeration', helpers={'vdriver': './cmd/vdriver'},
         quick=dict(shards=4, checks=60, extra=[dict(test='TestC04Client', checks=30, shards=4), dict(test='TestC04Keys', checks=1, shards=2)]),
-        thorough=dict(shards=12, checks=4500, budget_s=3000, fuzz=[dict(target='FuzzDeserialize', time='90s', wall=600)], extra=[dict(test='TestC04Client', checks=800, shards=4), dict(test='TestC04Keys', checks=1, shards=4)]),
+        thorough=dict(shards=12, checks=9000, budget_s=3000, fuzz=[dict(target='FuzzDeserialize', time='90s', wall=600)], extra=[dict(test='TestC04Client', checks=800, shards=4), dict(test='TestC04Keys', checks=1, shards=4)]),
         level_text=('Every generated valid packet is subjected to the enumerated fault list: all single-bit flips (exhaustive for packets '
                     '<= 256 bytes), all truncation lengths, extension, re-keying, reflection, garbage bodies, attacker-with-key declared '
                     'lengths {-2^31,-1,len-33..len+33,2^30,2^31-1}, wrong parity, inconsistent plain packets; the expected verdict is '
@@ -76,7 +76,7 @@ CHECKS = {
     'C17': dict(
         pkg='./c17', test='TestC17', level='exploration', helpers={'vdriver': './cmd/vdriver'},
         quick=dict(shards=4, checks=25000, extra=[dict(test='TestC17Client', checks=25, shards=4)]),
-        thorough=dict(shards=12, checks=2000000, budget_s=3000, extra=[dict(test='TestC17Client', checks=1000, shards=4)]),
+        thorough=dict(shards=12, checks=6000000, budget_s=3000, extra=[dict(test='TestC17Client', checks=3000, shards=4)]),
         level_text=('Model-based: every generated (code, text) is compared with a restated model of the prefix/suffix table and the catalogue '
                     '(parsed from the text of errors.go only to know which names are documented); all catalogued names and 15 rows x 18 '
                     'parameters are enumerated. Client-level delivery/migration scenarios run against the reference server (see DESIGN).'),
@@ -128,7 +128,7 @@ CHECKS = {
     'C08': dict(
         pkg='./c08', test='TestC08', level='exploration',
         quick=dict(shards=8, checks=150),
-        thorough=dict(shards=16, checks=6000, budget_s=3000),
+        thorough=dict(shards=16, checks=12000, budget_s=3000),
         level_text=('Format: generated message sequences through mode.New/WriteMsg and Detect/ReadMsg over an exact-count in-memory pipe are compared '
                     'byte-for-byte with a reference framer; every length 0..1024 step 4 per mode is enumerated. Segmentation: a listener plays a '
                     'reference-framed stream over real loopback TCP cut by a generated composition (every composition of short streams / of the first '
@@ -165,7 +165,7 @@ CHECKS = {
     'C13': dict(
         pkg='./c13', test='TestC13', level='translation_validation', helpers={'vdriver': './cmd/vdriver'},
         quick=dict(shards=1, checks=1, extra=[dict(test='TestC13Methods', checks=1, shards=2)]),
-        thorough=dict(shards=1, checks=1, extra=[dict(test='TestC13Methods', checks=1, shards=10)]),
+        thorough=dict(shards=1, checks=1, extra=[dict(test='TestC13Methods', checks=1, shards=16)]),
         level_text=('Part A (exhaustive differential): every definition of api_latest.tl (1195 + the 5 dormant header lines), the hand-written wrappers and the wire-used '
                     'definitions of mtproto.tl is compared with the registered Go type by an independent reading of the schema text: id written = CRC-32 of the '
                     'canonical line = CRC() of the type, field i <-> parameter i under a fixed type map, flag:N tags, encoded_in_bitflags, FlagIndex(), enum member sets, '
@@ -246,7 +246,7 @@ CHECKS = {
     'C06': dict(
         pkg='./c06', test='TestC06', level='exploration', helpers={'vdriver': './cmd/vdriver'},
         quick=dict(shards=8, checks=8, budget_s=1500, shrinktime='1s'),
-        thorough=dict(shards=16, checks=600, budget_s=3400, shrinktime='1s'),
+        thorough=dict(shards=16, checks=1200, budget_s=3400, shrinktime='1s'),
         level_text=('Every case is a complete key exchange of the real client (fresh child process) against an independent, specification-following reference server '
                     'with generated parameters (RSA key from a pool, nonces, pq from three prime size classes, g in {3,4,7}, DH secrets, padding). Corners - each of nonce, '
                     'server_nonce, new_nonce, new_nonce_hash1, RSA ciphertext, g_a, g_b, g^ab starting with 1 (thorough: 2) zero bytes - are forced by searching inputs; client '
@@ -263,7 +263,7 @@ CHECKS = {
     'C07': dict(
         pkg='./c07', test='TestC07', level='fault_enumeration', helpers={'vdriver': './cmd/vdriver'},
         quick=dict(shards=16, checks=3, budget_s=900),
-        thorough=dict(shards=16, checks=600, budget_s=3400),
+        thorough=dict(shards=16, checks=1200, budget_s=3400),
         level_text=('An otherwise conformant key exchange (real client in a fresh process, reference server) is run with exactly one fault of the statement\'s list: nonce / '
                     'server_nonce echoed wrongly in resPQ, server_DH_params_ok, the decrypted server_DH_inner_data and dh_gen_ok (bit flip, random value, the other nonce, '
                     'zero); fingerprint list without the configured key; encrypted DH answer whose SHA-1 prefix does not match (prefix or content bit flipped); wrong '
@@ -281,7 +281,7 @@ CHECKS = {
     'C19': dict(
         pkg='./c19', test='TestC19', level='exploration', helpers={'vdriver': './cmd/vdriver'},
         quick=dict(shards=4, checks=10, budget_s=900),
-        thorough=dict(shards=4, checks=200, budget_s=3400),
+        thorough=dict(shards=4, checks=400, budget_s=3400),
         level_text=('Falsification of reproducibility only: generated testing cannot observe where a value comes from, it can only reproduce a secret that was supposed to be '
                     'unpredictable. Metamorphic: the process-global math/rand is seeded with a generated value before the draw and the draw is repeated - nonce, new_nonce, '
                     'g_b of two complete key exchanges (child processes) and the SRP value A must differ. Seed recovery: the nanosecond window around NewMTProto / MakeGAB is '
@@ -352,7 +352,7 @@ CHECKS = {
     'C16': dict(
         pkg='./c16', test='TestC16', level='exploration', helpers={'vdriver': './cmd/vdriver'},
         quick=dict(shards=8, checks=25, budget_s=900),
-        thorough=dict(shards=16, checks=2400, budget_s=3400),
+        thorough=dict(shards=16, checks=4800, budget_s=3400),
         level_text=('Generated histories of 1..12 server-to-client events on a live client (fresh process per case, drained warning channel, one registered handler), each followed '
                     'by a probe request that must complete: every MTProto service constructor the client can be sent (pong, msgs_ack, new_session_created, bad_msg_notification, '
                     'msgs_state_info, msgs_all_info, msg_detailed_info, msg_new_detailed_info, future_salts, bad_server_salt for an unknown or an already answered message, a silent salt rotation), rpc_result / rpc_error for unknown ids, a repeated result for an answered '
